@@ -85,6 +85,8 @@ def closure_tokens(d):
                 L(x["attr"] for x in h.get("headers") or []) + L(x["attr"] for x in h.get("cookies") or []) + L(battrs) + L(resp) + \
                 L(e["name"] for e in h.get("errors") or []) + L(x for r in m.get("security") or [] for x in r["schemes"]) + \
                 [hx(m["result_view"]) if m.get("result_view") else "~"] + L(views)
+            for v in (types.get(tname) or {}).get("views") or []:
+                out += L(a["name"] for a in v["attrs"])
     avs = attr_views(d)
     if avs:
         out += ["V", str(len(avs))]
@@ -198,6 +200,13 @@ def mutations(d):
                 mut(lambda mm: mm.update(result_view="zz_view"), "view")
             if fields_of(d, m.get("result")) and (h.get("responses") or []):
                 mut(lambda mm: mm["http"]["responses"].append({"code": 203, "tag": ["zz_missing", "x"]}), "response-tag")
+            # an attribute the result type HAS but not every view selects (a single-view type included), mapped to a response header
+            tdef = next((t for t in d.get("types", []) if t["name"] == rt.get("ref") and t.get("views")), None)
+            if tdef and not m.get("result_view"):
+                prim = [f["name"] for f in tdef["att"]["type"].get("object") or [] if (f["att"].get("type") or {}).get("prim")]
+                outside = [a for a in prim if not all(a in [x["name"] for x in v["attrs"]] for v in tdef["views"])]
+                if outside:
+                    mut(lambda mm: mm["http"].update(responses=[{"code": 200, "headers": [{"attr": outside[0], "wire": "X-Outside"}]}]), "response-attribute-outside-a-view")
             if si == 0 and mi == 0:
                 break
     return out + attr_view_mutations(d)
